@@ -56,6 +56,12 @@ CLAIMS["C14"] = dict(
   technique="table agreement (constants vs. map literal), writer/reader type agreement over allocations, field-coverage analysis of converters",
   ref="DESIGN.md §3 C14")
 
+CLAIMS["C06"] = dict(
+  text="Effect analysis and containment rules: in all first-party code reachable from the 58 filesystem extractors and filesystem.Run the only file-system / process / database effects are the audited GetRealPath temp copy and its removal; bbolt databases are opened with ReadOnly; GetRealPath's temp directory is removed by every caller (filepath.Dir of the returned path) and on its own error exits; in unpack every MkdirAll/WriteFile/Symlink happens only after the lexical '..' rejection and a passed pathOutsideBaseDirectory(dir, fullPath) on that same path, and that check is filepath.Rel-based, rejects both '..' and '../', and treats errors as outside; layer scanning writes only Join(layer dir, cleaned name) after its '../' test, never creates links on disk, and cleans its temp directory on every error exit. Level 'other': who-may-mutate and dominance facts for all inputs; effects inside third-party code, symlink chains that become escaping through later entries, detectors and standalone extractors are not decided.",
+  note="Trusted: CHA reachability over first-party code, the primitive table in c06.go, third-party open modes (go-rpmdb, saferwall/pe).",
+  technique="effect (who-may-call) analysis over the call graph + edge dominance of containment checks + create/clean-up pairing",
+  ref="DESIGN.md §3 C06")
+
 NA = {}
 
 
